@@ -623,6 +623,7 @@ def trace_validate(ctx, tie, exe, args, timeout=1200, max_report=3):
     idx = []  # (trace number, line text)
     traces = 0
     pfails, stats, nts = [], {}, set()
+    last_scn = None
     cur = None
     descs = {}
     for line in lines:
@@ -651,6 +652,11 @@ def trace_validate(ctx, tie, exe, args, timeout=1200, max_report=3):
             ctx.add_samples([line[7:]])
         elif line.startswith("NT "):
             nts.add(line[3:].strip())
+        elif line.startswith("SCN "):
+            try:
+                last_scn = int(line[4:])
+            except ValueError:
+                pass
     mism = []
     accepted = 0
     if reqs:
@@ -682,4 +688,4 @@ def trace_validate(ctx, tie, exe, args, timeout=1200, max_report=3):
     ctx.notes.setdefault("trace_events", 0)
     ctx.notes["trace_events"] += len(reqs) - traces
     return {"ok": not mism and not pfails and not crashed, "mismatches": mism, "pfails": pfails, "stats": stats,
-            "rc": rc, "tail": tail, "crashed": crashed, "nreq": traces}
+            "rc": rc, "tail": tail, "crashed": crashed, "nreq": traces, "last_scn": last_scn}
